@@ -76,10 +76,149 @@ func stripConv(v ssa.Value) ssa.Value {
 			v = x.X
 		case *ssa.ChangeInterface:
 			v = x.X
+		case *ssa.Field:
+			// a field of a struct value that was just built as a literal is the value stored into that field
+			if fwd := fieldOfLiteral(x); fwd != nil {
+				v = fwd
+				continue
+			}
+			return v
+		case *ssa.UnOp:
+			// h.f where h is a local struct variable that was assigned once as a whole (h := lit / h := g-expanded):
+			// the value of field f of what was assigned
+			if x.Op == token.MUL {
+				if fa, ok := x.X.(*ssa.FieldAddr); ok {
+					if a, isA := fa.X.(*ssa.Alloc); isA && !a.Heap {
+						if fwd := localStructField(a, fa.Field, x, 0); fwd != nil {
+							v = fwd
+							continue
+						}
+					}
+				}
+			}
+			return v
 		default:
 			return v
 		}
 	}
+}
+
+// localStructField: the value of field k of the local (stack) struct cell a at instruction at, when it is determined:
+// a was assigned exactly once as a whole, before at, from another such cell or from a literal built field by field, and
+// field k is never written or its address taken afterwards.
+func localStructField(a *ssa.Alloc, k int, at ssa.Instruction, depth int) ssa.Value {
+	if depth > 4 || a.Referrers() == nil {
+		return nil
+	}
+	var whole []*ssa.Store
+	var fieldStores []*ssa.Store
+	for _, r := range *a.Referrers() {
+		switch y := r.(type) {
+		case *ssa.Store:
+			if y.Addr != ssa.Value(a) {
+				return nil // the cell's address is stored somewhere
+			}
+			whole = append(whole, y)
+		case *ssa.FieldAddr:
+			if y.Field != k {
+				continue
+			}
+			if y.Referrers() == nil {
+				continue
+			}
+			for _, r2 := range *y.Referrers() {
+				switch z := r2.(type) {
+				case *ssa.Store:
+					if z.Addr != ssa.Value(y) {
+						return nil
+					}
+					fieldStores = append(fieldStores, z)
+				case *ssa.UnOp:
+					if z.Op != token.MUL {
+						return nil
+					}
+				case *ssa.DebugRef:
+				default:
+					return nil // address of the field escapes
+				}
+			}
+		case *ssa.UnOp:
+			if y.Op != token.MUL {
+				return nil
+			}
+		case *ssa.DebugRef:
+		default:
+			return nil // the cell's address escapes (call argument, closure, …)
+		}
+	}
+	switch {
+	case len(whole) == 1 && len(fieldStores) == 0:
+		st := whole[0]
+		if !instrDominates(st, at) {
+			return nil
+		}
+		src := st.Val
+		if ld, ok := src.(*ssa.UnOp); ok && ld.Op == token.MUL {
+			if b, isA := ld.X.(*ssa.Alloc); isA {
+				return localStructField(b, k, ld, depth+1)
+			}
+		}
+		return nil
+	case len(whole) == 0 && len(fieldStores) == 1:
+		if !instrDominates(fieldStores[0], at) {
+			return nil
+		}
+		return fieldStores[0].Val
+	}
+	return nil
+}
+
+// fieldOfLiteral: x = (*a).f where a is a local struct cell that is only ever filled field by field (one store per
+// field) and read as a whole; returns the value stored into f when that store precedes the read.
+func fieldOfLiteral(x *ssa.Field) ssa.Value {
+	ld, ok := x.X.(*ssa.UnOp)
+	if !ok || ld.Op != token.MUL {
+		return nil
+	}
+	a, ok := ld.X.(*ssa.Alloc)
+	if !ok || a.Referrers() == nil {
+		return nil
+	}
+	var val ssa.Value
+	var st0 *ssa.Store
+	for _, r := range *a.Referrers() {
+		switch y := r.(type) {
+		case *ssa.FieldAddr:
+			if y.Referrers() == nil {
+				return nil
+			}
+			n := 0
+			for _, r2 := range *y.Referrers() {
+				st, isSt := r2.(*ssa.Store)
+				if !isSt || st.Addr != ssa.Value(y) {
+					return nil // the field's address is used for something else than one initialising store
+				}
+				n++
+				if y.Field == x.Field {
+					val, st0 = st.Val, st
+				}
+			}
+			if n != 1 {
+				return nil
+			}
+		case *ssa.UnOp:
+			if y.Op != token.MUL {
+				return nil
+			}
+		case *ssa.DebugRef:
+		default:
+			return nil
+		}
+	}
+	if val == nil || st0 == nil || !instrDominates(st0, ld) {
+		return nil
+	}
+	return val
 }
 
 // fieldVar returns the field object selected by a FieldAddr / Field instruction.
@@ -543,13 +682,46 @@ func isNoReturnCall(i ssa.Instruction) bool {
 // forwardSearch explores instruction-level paths starting right after `from`. stop(i)=true cuts the path at i
 // (i is not traversed). It returns the first instruction satisfying target that is reachable, or nil.
 func forwardSearch(from ssa.Instruction, stop func(ssa.Instruction) bool, target func(ssa.Instruction) bool) ssa.Instruction {
-	type pt struct {
-		b   *ssa.BasicBlock
-		idx int
+	// Path-sensitive for flag variables: a branch on a φ of constants (`done := false; … done = true; … if done`) or on
+	// `e != nil` with e a φ of nil / definitely-non-nil errors is followed only along the edge that the way into the φ's
+	// block selects. The state of a path is the predecessor through which each block holding such a φ was last entered.
+	f := from.Parent()
+	flagBlocks := map[*ssa.BasicBlock]bool{}
+	if f != nil {
+		for _, b := range f.Blocks {
+			if len(b.Instrs) == 0 {
+				continue
+			}
+			if iff, ok := b.Instrs[len(b.Instrs)-1].(*ssa.If); ok {
+				for _, ph := range flagPhisOf(iff.Cond, 0) {
+					flagBlocks[ph.Block()] = true
+				}
+			}
+		}
 	}
-	seenBlk := map[*ssa.BasicBlock]bool{}
-	var walk func(b *ssa.BasicBlock, idx int) ssa.Instruction
-	walk = func(b *ssa.BasicBlock, idx int) ssa.Instruction {
+	type state struct {
+		b   *ssa.BasicBlock
+		env string
+	}
+	seen := map[state]bool{}
+	budget := 20000
+	envKey := func(env map[*ssa.BasicBlock]*ssa.BasicBlock) string {
+		if len(env) == 0 {
+			return ""
+		}
+		var ks []int
+		for b := range env {
+			ks = append(ks, b.Index)
+		}
+		sort.Ints(ks)
+		s := ""
+		for _, k := range ks {
+			s += fmt.Sprintf("%d<%d;", k, env[f.Blocks[k]].Index)
+		}
+		return s
+	}
+	var walk func(b *ssa.BasicBlock, idx int, env map[*ssa.BasicBlock]*ssa.BasicBlock) ssa.Instruction
+	walk = func(b *ssa.BasicBlock, idx int, env map[*ssa.BasicBlock]*ssa.BasicBlock) ssa.Instruction {
 		for k := idx; k < len(b.Instrs); k++ {
 			in := b.Instrs[k]
 			if stop != nil && stop(in) {
@@ -562,18 +734,159 @@ func forwardSearch(from ssa.Instruction, stop func(ssa.Instruction) bool, target
 				return nil
 			}
 		}
-		for _, s := range b.Succs {
-			if seenBlk[s] || isRecoverBlock(s) {
+		succs := b.Succs
+		if iff, ok := b.Instrs[len(b.Instrs)-1].(*ssa.If); ok && len(succs) == 2 && budget > 0 {
+			if v, known := flagValue(iff.Cond, env, 0); known {
+				if v {
+					succs = succs[:1]
+				} else {
+					succs = succs[1:2]
+				}
+			}
+		}
+		for _, s := range succs {
+			if isRecoverBlock(s) {
 				continue
 			}
-			seenBlk[s] = true
-			if r := walk(s, 0); r != nil {
+			env2 := env
+			if flagBlocks[s] && budget > 0 {
+				env2 = map[*ssa.BasicBlock]*ssa.BasicBlock{}
+				for k, v := range env {
+					env2[k] = v
+				}
+				env2[s] = b
+			}
+			st := state{s, envKey(env2)}
+			if budget <= 0 {
+				st.env = ""
+			}
+			if seen[st] {
+				continue
+			}
+			seen[st] = true
+			budget--
+			if r := walk(s, 0, env2); r != nil {
 				return r
 			}
 		}
 		return nil
 	}
-	return walk(from.Block(), instrIndex(from)+1)
+	return walk(from.Block(), instrIndex(from)+1, nil)
+}
+
+// flagPhisOf: the φ-nodes whose incoming edge decides the condition (through !, ==/!= nil, ==/!= constant).
+func flagPhisOf(cond ssa.Value, depth int) []*ssa.Phi {
+	if depth > 4 {
+		return nil
+	}
+	switch x := cond.(type) {
+	case *ssa.UnOp:
+		if x.Op == token.NOT {
+			return flagPhisOf(x.X, depth+1)
+		}
+	case *ssa.Phi:
+		out := []*ssa.Phi{x}
+		for _, e := range x.Edges {
+			if ph, ok := e.(*ssa.Phi); ok {
+				out = append(out, flagPhisOf(ph, depth+1)...)
+			}
+		}
+		return out
+	case *ssa.BinOp:
+		if x.Op == token.EQL || x.Op == token.NEQ {
+			for _, side := range []ssa.Value{x.X, x.Y} {
+				if ph, ok := stripConv(side).(*ssa.Phi); ok {
+					if _, isK := otherOperand(x, side).(*ssa.Const); isK {
+						return flagPhisOf(ph, depth+1)
+					}
+				}
+			}
+		}
+	}
+	return nil
+}
+
+func otherOperand(b *ssa.BinOp, side ssa.Value) ssa.Value {
+	if b.X == side {
+		return b.Y
+	}
+	return b.X
+}
+
+// flagValue: the truth value of cond on a path described by env (block → predecessor it was entered from), when the
+// path decides it.
+func flagValue(cond ssa.Value, env map[*ssa.BasicBlock]*ssa.BasicBlock, depth int) (val, known bool) {
+	if depth > 6 || env == nil {
+		return false, false
+	}
+	pick := func(ph *ssa.Phi) ssa.Value {
+		pred, ok := env[ph.Block()]
+		if !ok {
+			return nil
+		}
+		for k, pb := range ph.Block().Preds {
+			if pb == pred {
+				return ph.Edges[k]
+			}
+		}
+		return nil
+	}
+	switch x := cond.(type) {
+	case *ssa.Const:
+		if b, ok := boolConst(x); ok {
+			return b, true
+		}
+	case *ssa.UnOp:
+		if x.Op == token.NOT {
+			v, k := flagValue(x.X, env, depth+1)
+			return !v, k
+		}
+	case *ssa.Phi:
+		if e := pick(x); e != nil {
+			return flagValue(e, env, depth+1)
+		}
+	case *ssa.BinOp:
+		if x.Op != token.EQL && x.Op != token.NEQ {
+			return false, false
+		}
+		for _, side := range []ssa.Value{x.X, x.Y} {
+			ph, ok := stripConv(side).(*ssa.Phi)
+			if !ok {
+				continue
+			}
+			other := otherOperand(x, side)
+			e := pick(ph)
+			for d := 0; e != nil && d < 4; d++ {
+				if p2, isPhi := stripConv(e).(*ssa.Phi); isPhi {
+					e = pick(p2)
+					continue
+				}
+				break
+			}
+			if e == nil {
+				continue
+			}
+			if isNilConst(other) {
+				switch {
+				case isNilConst(e):
+					return x.Op == token.EQL, true
+				case definitelyNonNilError(e):
+					return x.Op == token.NEQ, true
+				}
+				continue
+			}
+			if ko, isK := other.(*ssa.Const); isK {
+				if ke, isK2 := stripConv(e).(*ssa.Const); isK2 && ko.Value != nil && ke.Value != nil {
+					eq := constant.Compare(ke.Value, token.EQL, ko.Value)
+					if x.Op == token.EQL {
+						return eq, true
+					}
+					return !eq, true
+				}
+			}
+		}
+	}
+	return false, false
 }
 
 // reachesReturnAvoiding: is some Return reachable from just after `from` without executing an instruction
